@@ -177,6 +177,9 @@ def val_term(I, v):
         return z3.Const("TrueVal" if v else "FalseVal", Val())
     if isinstance(v, SV) and v.ty == BOOL:
         return z3.If(v.t, z3.Const("TrueVal", Val()), z3.Const("FalseVal", Val()))
+    if isinstance(v, SV) and isinstance(v.ty, Abs) and v.ty.key in ("DictV", "SeqV"):
+        # a dict / sequence value seen as a plain value (injection into Val)
+        return z3.Function(f"{v.ty.key}_as_val", sort_of(v.ty), Val())(v.t)
     if isinstance(v, SList) and v.ety == Abs("Val"):
         f = z3.Function("listval", sort_of(v.ty), Val())
         return f(pack(I.ctx, v, v.ty))
@@ -414,14 +417,22 @@ def assign_trace_fn():
     return z3.Function("assign_trace", _V(), _N(), _V(), _chg_list_sort())
 
 
+def _nt(I, node):
+    if node is None:
+        return I.V.none_const(Abs("Node"))
+    if isinstance(node, Opaque):
+        return z3.Const(I.ctx.fresh_name("unknown_node"), _N())
+    return node.t
+
+
 def s_assign_result(I, old, node, new):
-    return SV(assign_result_fn()(val_term(I, old), node.t, val_term(I, new)), Abs("Val"))
+    return SV(assign_result_fn()(val_term(I, old), _nt(I, node), val_term(I, new)), Abs("Val"))
 
 
 def s_assign_trace(I, old, node, new):
     from .types import parse_ty
 
-    return unpack(I.ctx, assign_trace_fn()(val_term(I, old), node.t, val_term(I, new)), parse_ty("List[Chg]"))
+    return unpack(I.ctx, assign_trace_fn()(val_term(I, old), _nt(I, node), val_term(I, new)), parse_ty("List[Chg]"))
 
 
 def abstract_assign(I, args, kwargs, node):
@@ -441,3 +452,37 @@ def s_is_container(I, v):
 
 
 SPEC_NS["is_container"] = s_is_container
+
+
+# ------------------------------------------------------------------------------------------------
+# length of a longest common subsequence (independent recursive specification; C11 "longest-common-subsequence alignment")
+
+def _VA():
+    return z3.ArraySort(z3.IntSort(), _V())
+
+
+def lcs_fn():
+    return z3.Function("lcs", _VA(), _VA(), z3.IntSort(), z3.IntSort(), z3.IntSort())
+
+
+def axioms_lcs():
+    f = lcs_fn()
+    a, b = z3.Consts("lc!a lc!b", _VA())
+    p, q = z3.Ints("lc!p lc!q")
+    eq, tr = _cmpf("eq"), _tr()
+    m = lambda x, y: z3.If(x >= y, x, y)
+    same = tr(eq(z3.Select(a, p - 1), z3.Select(b, q - 1)))
+    side = m(f(a, b, p, q - 1), f(a, b, p - 1, q))
+    return [
+        z3.ForAll([a, b, p, q], z3.Implies(z3.Or(p <= 0, q <= 0), f(a, b, p, q) == 0), patterns=[f(a, b, p, q)]),
+        z3.ForAll([a, b, p, q], z3.Implies(z3.And(p > 0, q > 0), f(a, b, p, q) == z3.If(same, m(side, f(a, b, p - 1, q - 1) + 1), side)), patterns=[f(a, b, p, q)]),
+    ]
+
+
+def s_lcs(I, a, b, p, q):
+    la, lb = as_slist(I.ctx, a), as_slist(I.ctx, b)
+    return SV(lcs_fn()(la.arr, lb.arr, zint(p), zint(q)), INT)
+
+
+SPEC_NS["lcs"] = s_lcs
+AXIOM_SETS["lcs"] = axioms_lcs
